@@ -462,10 +462,8 @@ def gen_desc(seed, idx):
     if binary:
         d['min_on'] = rng.choice([0, 0, 1, 3, 10])
         d['min_off'] = rng.choice([0, 0, 2, 5, 10])
-        if 'pv0' not in d and (d['min_on'] or d['min_off']):
-            # the library needs an explicit present value for a binary object with minimum times (documented usage)
-            d['pv0'] = d.get('default') or ['enum', 'inactive']
-            d['default'] = d['pv0']
+        # (objects with minimum times are built with and without an explicit present value: the state an object is
+        # constructed in is an initial value, not a new state that would have to be held)
     n = rng.randint(1, 100) if rng.random() < 0.5 else rng.randint(1, 12)
     ops = list(reads()) if rng.random() < 0.8 else []
     for _ in range(n):
@@ -621,7 +619,7 @@ def evidence(tier, seed, total):
         },
         'assumptions': ['the 16-slot reference model and its slot-6 timer model are correct', 'a write without priority counts as priority 16',
                         'priority 6 is not commanded on binary objects with minimum times (reserved by the standard for that mechanism)',
-                        'binary objects with a minimum time are constructed with an explicit present value, as the library requires',
+                        'the state a binary object is constructed in (given or defaulted) is not held: only states assumed through commands are',
                         'exhaustive enumeration, direct access: lengths 1-2 (quick), lengths 1-4 for all 20 classes and length 5 for the analog-value and binary-value classes (thorough); '
                         'through WriteProperty requests over a fault-free LAN: length 1 (quick), lengths 1-3 for all 20 classes (thorough)'],
     }
